@@ -174,7 +174,7 @@ func readMetadataResp(dec *imapwire.Decoder) (*metadataResp, error) {
 		if dec.String(&s) || dec.Literal(&s) {
 			b := []byte(s)
 			value = &b
-		} else if !dec.ExpectNIL() {
+		} else if dec.Err() != nil || !dec.ExpectNIL() {
 			return dec.Err()
 		}
 
